@@ -19,7 +19,7 @@ package internals
 //@   ghost_update srctag := nil
 //@   ensures[C07,C11] fmter_set: result.Fmter == fmter
 //@   ensures[C07] errors_set: result.Errors == errs
-//@   ensures[C07,C12] m_reset: result.m == nil
+//@   ensures[C07,C12,C11] m_reset: result.m == nil
 
 //@ func (*ExecCtx).NewSchemaCtx(c, val, destPtr, path, dtype)
 //@   fresh
@@ -375,15 +375,15 @@ package internals
 //@ spec pathkept(p) = len(*p) == old(len(*p)) && IARR(arrbase(*p)) && forall(i, 0, len(*p), (*p)[i] == old((*p)[i]))
 //@ func (*PathBuilder).Push(p, path)
 //@   requires p != nil && path != nil
-//@   requires[C10] abstraction_holds: pathrep(p)
+//@   requires[C10,C09] abstraction_holds: pathrep(p)
 //@   modifies all(p), elems(*p), PSEQ(p)
 //@   ghost_update PSEQ(p) := ppush(PSEQ(p), *path)
 //@   ghost_update IARR(arrbase(*p)) := true
 //@   ensures result == p
 //@   ensures IARR(arrbase(*p))
-//@   ensures[C10] appended: len(*p) == old(len(*p)) + 1 && (*p)[len(*p)-1] == *path
-//@   ensures[C10] prefix_kept: forall(i, 0, old(len(*p)), (*p)[i] == old((*p)[i]))
-//@   ensures[C10] abstraction_kept: pathrep(p)
+//@   ensures[C10,C09] appended: len(*p) == old(len(*p)) + 1 && (*p)[len(*p)-1] == *path
+//@   ensures[C10,C09] prefix_kept: forall(i, 0, old(len(*p)), (*p)[i] == old((*p)[i]))
+//@   ensures[C10,C09] abstraction_kept: pathrep(p)
 
 //@ func (*PathBuilder).Pop(p)
 //@   requires p != nil
